@@ -50,6 +50,7 @@ def setup(rep, tier):
     rep.minimum('R09.6', 1)
     rep.minimum('R09.7', 3)
     rep.minimum('R09.8', 1)
+    rep.minimum('R09.9', 2)
 
 
 def T_minmax(e):
@@ -623,7 +624,43 @@ def r09_6(rep, prog):
         rep.holds('R09.6', inst, f.where(), '%d reachable (frame index, previous LBRR flag, regular coding mode) cases agree with silk_Encode' % ncase, n=ncase)
 
 
+# ------------------------------------------------------------------ R09.9
+def r09_9(rep, prog):
+    """FEC is attempted only where LBRR data can exist: when the packet handed in is MDCT-only, or the decoder's
+    own mode (the mode of the stream before the loss) is MDCT-only, the FEC request falls back to concealment.  Under
+    each of these two valuations the FEC frame decode (the frame-decoder call with decode_fec = 1) is unreachable."""
+    f = prog.fn('opus_decode_native')
+    cf = cfgm.CFG(f)
+    rep.functions.add(f.name)
+    fd = {g.name for g in roles.frame_decoders(prog)}
+    sites = [(b, i, c) for b, i, c in T.calls_to(cf, tuple(fd)) if sx.int_val(sx.strip(c[2][-1])) == 1 or (len(c[2]) >= 6 and sx.int_val(sx.strip(c[2][5])) == 1)]
+    inst0 = '%s:opus_decode_native falls back to concealment when no LBRR data can exist' % prog.config
+    if not sites:
+        rep.unresolved('R09.9', inst0 + ': FEC frame decode not found')
+        return 0
+    pm = [l for l in f.locals.values() if l['name'] == 'packet_mode']
+    kst = ('param', f.param_index('st'))
+    n = 0
+    for what, val, entry in (('the packet is MDCT-only', {('local', pm[0]['id']): 1002} if pm else None, False),
+                             ('the decoder was in MDCT-only mode', {('field', kst, 'mode'): 1002}, True)):
+        if val is None:
+            rep.unresolved('R09.9', inst0 + ': packet_mode local not found')
+            continue
+        n += 1
+        feas = decide.feasible_blocks(cf, val, entry=entry)
+        reach = [sx.line(c) for b, i, c in sites if b in feas]
+        inst = '%s:opus_decode_native conceals instead of decoding FEC when %s' % (prog.config, what)
+        where = '%s:%s' % (f.file, sx.line(sites[0][2]))
+        if reach:
+            rep.violated('R09.9', inst, where, 'the FEC frame decode at line %s is reachable although %s: the SILK decoder is reset and asked for LBRR data that cannot be there, instead of MDCT concealment' % (reach[0], what),
+                         key='fec-without-lbrr:%s' % ('packet' if not entry else 'decoder'))
+        else:
+            rep.holds('R09.9', inst, where, 'FEC frame decode unreachable under %s' % what)
+    return n
+
+
 def check(rep, prog, tier):
+    r09_9(rep, prog)
     r09_6(rep, prog)
     r09_7(rep, prog)
     from . import chanstate
